@@ -15,6 +15,7 @@ type SKnobs struct {
 	RetryTimes  int    `json:"retry_times"`
 	PackCount   int    `json:"pack_count"`
 	PackTimerMs int    `json:"pack_timer_ms"`
+	PackMemKB   int    `json:"pack_mem_kb,omitempty"` // global memory budget of the write batchers in KB (0 = the shipped 4 GB)
 	TTMs        int    `json:"tt_ms"`
 	ChannelNum  int    `json:"channel_num"`
 	MaxSteps    int    `json:"max_steps"`
@@ -441,6 +442,11 @@ func genSOps(rng *Rng, sc *SScript, prop string) {
 					sc.Ops[i].AfterHist = rng.Range(2, 8)
 				}
 			}
+		}
+		if (prop == "C05" || prop == "C06") && rng.Pct(20) {
+			// a small global memory budget: batches are closed by the memory threshold instead of the count / age thresholds
+			sc.Knobs.PackMemKB = 1
+			sc.Knobs.PackCount = 10
 		}
 		if sc.Directed == "pdrop_queue" {
 			sc.Ops = []SOp{
